@@ -212,6 +212,66 @@ def impl_fn(case):
     return answer(*run_traces(case))
 
 
+def impl_dump_fn(case, version=2):
+    """The same records through another ROUTE: packed into a version-2 / version-3 dump (empty thread map) and read through
+    PyKdebugParser.traces with the case's code table; the TracesParser it builds is observed for the two tables of the
+    answer format that PyKdebugParser does not keep.  Same canonical answer as `impl_fn`."""
+    import io
+    import pykdebugparser.pykdebugparser as M
+    codes = {int(k): v for k, v in case['codes'].items()}
+    recs = [bytes.fromhex(h) for h in case['events']]
+    if version == 2:
+        dump = v2_bytes([], recs)
+    else:
+        from . import streams
+        dump = streams.v3_file([], recs)
+    made = []
+    real = M.TracesParser
+
+    class Observed(real):
+        def __init__(self, *a, **kw):
+            super().__init__(*a, **kw)
+            made.append(self)
+    outs, err, kept = [], '-', []
+    M.TracesParser = Observed
+    try:
+        p = M.PyKdebugParser()
+        try:
+            for t in p.traces(io.BytesIO(dump), codes):
+                try:
+                    txt = hs(str(t))
+                except Exception as e:
+                    txt = '!' + core.err_name(e)
+                outs.append({'name': codes.get(t.ktraces[0].eventid, '?'), 'ts': [k.timestamp for k in t.ktraces], 'text': txt,
+                             'extra': extra_of(t)})
+                kept.append(t)
+        except Exception as e:
+            err = core.err_name(e)
+    finally:
+        M.TracesParser = real
+    for o, t in zip(outs, kept):
+        try:
+            late = hs(str(t))
+        except Exception as e:
+            late = '!' + core.err_name(e)
+        if (late, extra_of(t), [k.timestamp for k in t.ktraces]) != (o['text'], o['extra'], o['ts']):
+            o['text'] = '!' + CHANGED + ':' + o['text'] + ':' + late
+    parser = made[0] if made else real(codes, {}, {})
+    return answer(outs, err, parser)
+
+
+ROUTES = ('parser', 'dump', 'dump3')
+
+
+def impl_route_fn(case):
+    """case['route']: parser (default: TracesParser.feed_generator) | dump (version-2 file through PyKdebugParser.traces) |
+    dump3 (version-3 file)."""
+    r = case.get('route') or 'parser'
+    if r == 'parser':
+        return impl_fn(case)
+    return impl_dump_fn(case, 2 if r == 'dump' else 3)
+
+
 def parse_answer(ans):
     """Inverse of `answer` (for oracles): (traces, err, tables)."""
     assert ans.startswith('ok ')
